@@ -35,6 +35,10 @@ const KINDS: [&str; 3] = ["blocking", "async", "ws"];
 enum Cmd {
     /// read `k` more whole request frames
     Read(usize),
+    /// from now on read request frames whenever no command is being executed; each arrives as `Event::Req`
+    AutoRead,
+    /// read one more request frame if it arrives within the given time (reply: `Frames` with 0 or 1 frame)
+    TryRead(Duration),
     /// read `k` request frames, answering each the moment it is read (tag = the caller's tag)
     Echo(usize),
     /// send each element as one frame (TCP: one write; WebSocket: one binary message)
@@ -51,6 +55,8 @@ enum Cmd {
 }
 
 enum Event {
+    /// a request frame read by the server in `AutoRead` mode
+    Req(RawFrame),
     Frames(Vec<RawFrame>),
     Done,
     SrvErr(String),
@@ -138,8 +144,30 @@ async fn server_task(is_ws: bool, listener: tokio::net::TcpListener, mut cmds: t
     } else {
         Conn::Tcp(stream, Vec::new())
     };
-    while let Some(cmd) = cmds.recv().await {
+    let mut auto = false;
+    let mut read_dead = false;
+    loop {
+        let cmd = if auto && !read_dead {
+            tokio::select! {
+                biased;
+                c = cmds.recv() => c,
+                f = conn.read_frame() => {
+                    match f {
+                        Ok(f) => { let _ = ev.send(Event::Req(f)); }
+                        Err(_) => read_dead = true,
+                    }
+                    continue;
+                }
+            }
+        } else {
+            cmds.recv().await
+        };
+        let Some(cmd) = cmd else { break };
         match cmd {
+            Cmd::AutoRead => {
+                auto = true;
+                let _ = ev.send(Event::Done);
+            }
             Cmd::Read(k) => {
                 let mut out = Vec::new();
                 let mut err = None;
@@ -155,6 +183,13 @@ async fn server_task(is_ws: bool, listener: tokio::net::TcpListener, mut cmds: t
                 let _ = match err {
                     Some(e) => ev.send(Event::SrvErr(e)),
                     None => ev.send(Event::Frames(out)),
+                };
+            }
+            Cmd::TryRead(d) => {
+                let _ = match tokio::time::timeout(d, conn.read_frame()).await {
+                    Ok(Ok(f)) => ev.send(Event::Frames(vec![f])),
+                    Ok(Err(e)) => ev.send(Event::SrvErr(e)),
+                    Err(_) => ev.send(Event::Frames(Vec::new())),
                 };
             }
             Cmd::Echo(k) => {
@@ -249,6 +284,14 @@ async fn server_task(is_ws: bool, listener: tokio::net::TcpListener, mut cmds: t
 // ---------------------------------------------------------------------------------------------
 // clients
 // ---------------------------------------------------------------------------------------------
+// Which scripted caller is running on this thread / in this task (read by the probe callback).
+thread_local! { static CALLER_THREAD: std::cell::Cell<Option<usize>> = const { std::cell::Cell::new(None) }; }
+tokio::task_local! { static CALLER_TASK: usize; }
+#[allow(dead_code)]
+fn current_caller() -> Option<usize> {
+    CALLER_TASK.try_with(|c| *c).ok().or_else(|| CALLER_THREAD.with(|c| c.get()))
+}
+
 #[derive(Clone)]
 enum Cl {
     B(Client),
@@ -270,16 +313,20 @@ struct Session {
 }
 
 struct H {
+    /// runtime of the clients under test (callers, the clients' reader tasks)
     rt: tokio::runtime::Runtime,
+    /// runtime of the scripted server: separate, so that client tasks parked inside a probe
+    /// callback can never keep the server from running
+    srv_rt: tokio::runtime::Runtime,
 }
 
 impl H {
     fn open(&self, kind: usize) -> Result<Session, String> {
         let (cmd, cmd_rx) = tmpsc::unbounded_channel();
         let (ev_tx, ev) = smpsc::channel();
-        let listener = self.rt.block_on(tokio::net::TcpListener::bind("127.0.0.1:0")).map_err(|e| e.to_string())?;
+        let listener = self.srv_rt.block_on(tokio::net::TcpListener::bind("127.0.0.1:0")).map_err(|e| e.to_string())?;
         let addr = listener.local_addr().map_err(|e| e.to_string())?;
-        self.rt.spawn(server_task(kind == 2, listener, cmd_rx, ev_tx.clone()));
+        self.srv_rt.spawn(server_task(kind == 2, listener, cmd_rx, ev_tx.clone()));
         let cl = match kind {
             0 => Cl::B(Client::connect(addr).map_err(|e| e.to_string())?),
             1 => Cl::A(self.rt.block_on(AsyncClient::connect(addr)).map_err(|e| e.to_string())?),
@@ -296,6 +343,7 @@ impl Session {
         match self.cl.clone() {
             Cl::B(cl) => {
                 std::thread::spawn(move || {
+                    CALLER_THREAD.with(|x| x.set(Some(c)));
                     let r = match timeout {
                         Some(t) => cl.call_json_with_timeout("/t", &body, t),
                         None => cl.call_json("/t", &body),
@@ -304,23 +352,23 @@ impl Session {
                 });
             }
             Cl::A(cl) => {
-                let jh = h.rt.spawn(async move {
+                let jh = h.rt.spawn(CALLER_TASK.scope(c, async move {
                     let r = match timeout {
                         Some(t) => cl.call_json_with_timeout("/t", &body, t).await,
                         None => cl.call_json("/t", &body).await,
                     };
                     let _ = tx.send(Event::Res(c, r));
-                });
+                }));
                 self.handles.push((c, jh));
             }
             Cl::W(cl) => {
-                let jh = h.rt.spawn(async move {
+                let jh = h.rt.spawn(CALLER_TASK.scope(c, async move {
                     let r = match timeout {
                         Some(t) => cl.call_json_with_timeout("/t", &body, t).await,
                         None => cl.call_json("/t", &body).await,
                     };
                     let _ = tx.send(Event::Res(c, r));
-                });
+                }));
                 self.handles.push((c, jh));
             }
         }
@@ -574,7 +622,8 @@ struct BatchCase {
 
 fn run_batch_case(h: &H, out: &mut Out, idx: &str, case: &BatchCase) {
     let kname = KINDS[case.kind];
-    let op = format!("batch {} {} {} {} {}", idx, case.kind, case.n, case.w, case.order.iter().map(|x| x.to_string()).collect::<Vec<_>>().join(","));
+    let rev = case.order == [usize::MAX];
+    let op = format!("batch {} {} {} {} {}", idx, case.kind, case.n, case.w, if rev { "rev".to_string() } else { case.order.iter().map(|x| x.to_string()).collect::<Vec<_>>().join(",") });
     out.begin(&op);
     let mut s = match h.open(case.kind) {
         Ok(s) => s,
@@ -610,20 +659,29 @@ fn run_batch_case(h: &H, out: &mut Out, idx: &str, case: &BatchCase) {
     let mut finish_order: Vec<usize> = Vec::new();
     let mut ids = Vec::new();
     while answered < case.n {
+        // never make the client wait for an answer we are holding: block for a request only when
+        // nothing is held, otherwise take one more only if it is already on its way
         while held.len() < case.w && received < case.n {
-            match s.read(1) {
-                Ok(mut f) => {
+            if held.is_empty() {
+                s.send(Cmd::Read(1));
+            } else {
+                s.send(Cmd::TryRead(Duration::from_millis(30)));
+            }
+            match s.srv() {
+                Ok(Event::Frames(mut f)) if !f.is_empty() => {
                     ids.push(f[0].h.id);
                     held.push(f.remove(0));
                     received += 1;
                 }
+                Ok(Event::Frames(_)) => break,
+                Ok(_) => break,
                 Err(e) => {
                     out.oracle_fail(&format!("mux.{}.batch_requests_missing", kname), &e, &[op.clone()]);
                     return;
                 }
             }
         }
-        let pick = case.order[answered % case.order.len().max(1)] % held.len();
+        let pick = if rev { held.len() - 1 } else { case.order[answered % case.order.len().max(1)] % held.len() };
         let f = held.remove(pick);
         let c = caller_of(&f).unwrap_or(usize::MAX);
         finish_order.push(c);
@@ -839,6 +897,14 @@ fn gen_mux(args: &Args, r: &mut Rng) -> (Vec<MuxCase>, Vec<BatchCase>) {
     let mut batches = Vec::new();
     let nb = if args.thorough() { 150 } else { 8 };
     for kind in 0..3 {
+        // boundary sizes (around the 32/64 wave / worker-pool sizes and a large one), two servers each:
+        // windowed out-of-order, and strictly newest-first within the window (order = [usize::MAX] -> "rev")
+        for n in [1usize, 2, 31, 32, 33, 34, 63, 64, 65, 100] {
+            let w = n.min(4);
+            let order: Vec<usize> = (0..n).map(|_| r.below(4) as usize).collect();
+            batches.push(BatchCase { kind, n, w, order });
+            batches.push(BatchCase { kind, n, w, order: vec![usize::MAX] });
+        }
         for i in 0..nb {
             let n = if i == 0 { 1 } else { r.range(2, if i % 2 == 0 { 12 } else { 40 }) as usize };
             let w = n.min(r.range(1, 4) as usize);
@@ -1350,6 +1416,114 @@ fn run_stall_case(h: &H, out: &mut Out, idx: &str, kind: usize, fault: &str) {
     out.case(&op, &format!("{} small {} big {}", idx, if a.starts_with("late-") { "Err" } else { a.as_str() }, b), true);
 }
 
+
+/// Seed C06-A's window: an async call is aborted while its large body write is parked (the peer is not
+/// reading), so part of a frame is on the wire. Whatever the client then does with the connection, the
+/// next call (no per-call timeout) must return — a response or an error — and never hang.
+fn run_abandon_case(h: &H, out: &mut Out, idx: &str, kind: usize, mib: usize) {
+    let kname = KINDS[kind];
+    let op = format!("abandon {} {} {}", idx, kind, mib);
+    out.begin(&op);
+    let ops = [op.clone()];
+    let Ok(mut s) = h.open(kind) else { return };
+    let pad = "x".repeat(mib << 20);
+    s.call(h, 7, json!({"c": 107, "pad": pad}), None);
+    s.send(Cmd::WaitUnread(1 << 16));
+    if let Err(e) = s.srv_done() {
+        out.oracle_fail(&format!("deadconn.{}.setup", kname), &e, &ops);
+        return;
+    }
+    std::thread::sleep(Duration::from_millis(100));
+    let cancelled = s.abort(h, 7);
+    // the peer resumes reading and answers every whole request it sees
+    s.send(Cmd::AutoRead);
+    let _ = s.srv_done();
+    s.call(h, 1, req_body(1), None);
+    let deadline = Instant::now() + call_watchdog();
+    let mut next = "HANG".to_string();
+    while Instant::now() < deadline {
+        match s.ev.recv_timeout(Duration::from_millis(20)) {
+            Ok(Event::Req(f)) => {
+                if let Some(c) = caller_of(&f) {
+                    s.send(Cmd::Send(vec![response(f.h.id, false, c as i64, c as i64)]));
+                }
+            }
+            Ok(Event::Res(1, r)) => {
+                next = match r {
+                    Ok(v) if tag_of(&v) == Some(1) => "own".into(),
+                    Ok(_) => "other".into(),
+                    Err(e) => {
+                        out.count(&format!("deadconn.{}.abandon.next.{}", kname, io_kind(&e)));
+                        "Err".into()
+                    }
+                };
+                break;
+            }
+            _ => {}
+        }
+    }
+    if next == "HANG" {
+        out.oracle_fail(&format!("deadconn.{}.next_call_hangs_after_abandoned_write", kname), &format!("a {} MiB call was aborted while its write was parked (peer not reading); the next call, made without a timeout after the peer resumed reading, did not return within {:?}", mib, call_watchdog()), &ops);
+        saw_hang();
+    } else if next == "other" {
+        out.oracle_fail(&format!("deadconn.{}.next_call_after_abandoned_write_wrong", kname), "the next call returned another call's response", &ops);
+    }
+    if !cancelled {
+        out.count("deadconn.abandon.not_cancelled");
+    }
+    out.count(&format!("deadconn.{}.abandon.{}", kname, next));
+    out.case(&op, &format!("{} next {}", idx, if next == "HANG" { "HANG" } else { "returned" }), true);
+    s.send(Cmd::Close);
+}
+
+/// Seed C06-C's window: blocking client with a write timeout, `n` small calls in flight and unanswered,
+/// then a large call whose write times out mid-frame against a peer that neither reads nor closes.
+/// Every call in flight must return an error while the peer stays silent and keeps the socket open.
+fn run_wtmo_case(h: &H, out: &mut Out, idx: &str, n: usize, mib: usize) {
+    let kname = KINDS[0];
+    let op = format!("wtmo {} 0 {} {}", idx, n, mib);
+    out.begin(&op);
+    let ops = [op.clone()];
+    let Ok(mut s) = h.open(0) else { return };
+    if let Cl::B(cl) = &s.cl {
+        let _ = cl.set_write_timeout(Some(Duration::from_millis(150)));
+    }
+    for c in 0..n {
+        s.call(h, c, req_body(c), None);
+    }
+    s.send(Cmd::WaitUnread(n * req_wire_len(0)));
+    if let Err(e) = s.srv_done() {
+        out.oracle_fail(&format!("deadconn.{}.setup", kname), &e, &ops);
+        return;
+    }
+    let pad = "x".repeat(mib << 20);
+    s.call(h, 7, json!({"c": 107, "pad": pad}), None);
+    let mut small: Vec<String> = vec!["HANG".into(); n];
+    let mut big = "HANG".to_string();
+    let deadline = Instant::now() + call_watchdog();
+    while Instant::now() < deadline && (big == "HANG" || small.iter().any(|x| x == "HANG")) {
+        match s.res(deadline.saturating_duration_since(Instant::now())) {
+            Some((7, r)) => big = match r { Ok(_) => "own".into(), Err(_) => "Err".into() },
+            Some((c, r)) if c < n => small[c] = match r { Ok(_) => "own".into(), Err(_) => "Err".into() },
+            Some(_) => {}
+            None => break,
+        }
+    }
+    if big == "HANG" {
+        out.oracle_fail(&format!("deadconn.{}.write_timeout_hang", kname), "the large call did not return although a write timeout is configured", &ops);
+        saw_hang();
+    }
+    if small.iter().any(|x| x != "Err") {
+        out.oracle_fail(&format!("deadconn.{}.inflight_hang_after_write_timeout", kname), &format!("a request write timed out mid-frame (peer silent, socket open): in-flight calls ended {:?} instead of all returning an error within {:?}", small, call_watchdog()), &ops);
+        if small.iter().any(|x| x == "HANG") {
+            saw_hang();
+        }
+    }
+    out.count(&format!("deadconn.{}.wtmo", kname));
+    out.case(&op, &format!("{} small {} big {}", idx, small.join(","), big), true);
+    s.send(Cmd::Close);
+}
+
 fn gen_dead(args: &Args, r: &mut Rng) -> Vec<DeadCase> {
     let mut v = Vec::new();
     let resp_len = response(1, false, 0, 0).len();
@@ -1386,13 +1560,638 @@ fn gen_dead(args: &Args, r: &mut Rng) -> Vec<DeadCase> {
     v
 }
 
+
+// ---------------------------------------------------------------------------------------------
+// family `sched`: probe-forced schedules (needs /repo's `verif-hooks` probe points)
+// ---------------------------------------------------------------------------------------------
+// Actions of a schedule (one op line = one schedule, executed on a fresh connection):
+//   S<c>[t]  start call c (t: with a 30 ms timeout): alloc + register; the caller parks at `client.before_write`
+//   W<c>     let c write its request (until the server has read it, or the call returned)
+//   F<tok>   the server sends a frame (r<c> response, n<c> notify-flagged with c's id, u<k> unknown id);
+//            the reader parks at `reader.after_match` / `reader.unmatched` / `reader.notify`
+//   D        the reader delivers (parks again at `reader.after_dispatch`)
+//   T<c>     wait until c's timer fired (c parks at `timeout.before_remove` / `guard.before_remove`)
+//   C<c>     c removes its entry and returns
+//   X        the server sends a malformed header; the reader parks at `failall.enter`
+//   A        the reader executes the next statement of fail_all_pending (parks at the next `failall.*`
+//            gate, finally at `reader.exit`)
+#[cfg(feature = "hooks")]
+mod sched {
+    use super::*;
+    use std::collections::{HashMap, HashSet};
+    use std::sync::{Arc, Condvar, Mutex, OnceLock};
+
+    #[derive(Clone, Copy, PartialEq, Eq, Hash, Debug)]
+    pub enum Party {
+        Caller(usize),
+        Reader,
+    }
+
+    #[derive(Default)]
+    struct St {
+        gate: bool,
+        hold_exit: bool,
+        /// party -> (point, value, ticket of that park)
+        parked: HashMap<Party, (&'static str, u64, u64)>,
+        /// tickets allowed to leave
+        release: HashSet<u64>,
+        epoch: u64,
+        next_ticket: u64,
+        timeout_callers: HashSet<usize>,
+        ids: HashMap<usize, u64>,
+        enters: u64,
+        fired: u64,
+        trace: Vec<String>,
+    }
+
+    pub struct Ctl {
+        st: Mutex<St>,
+        cv: Condvar,
+    }
+
+    static CTL: OnceLock<Arc<Ctl>> = OnceLock::new();
+
+    pub fn ctl() -> &'static Arc<Ctl> {
+        CTL.get_or_init(|| {
+            let c = Arc::new(Ctl { st: Mutex::new(St::default()), cv: Condvar::new() });
+            let c2 = c.clone();
+            repe::verif_hooks::set_probe(Some(Arc::new(move |point, value| c2.probe(point, value))));
+            c
+        })
+    }
+
+    impl Ctl {
+        fn probe(&self, point: &'static str, value: u64) {
+            let party = if point.starts_with("reader.") || point.starts_with("failall.") {
+                Party::Reader
+            } else {
+                match current_caller() {
+                    Some(c) => Party::Caller(c),
+                    None => return,
+                }
+            };
+            {
+                let mut st = self.st.lock().unwrap();
+                st.fired += 1;
+                if st.trace.len() < 200 {
+                    let t = format!("{:?}:{}={}", party, point, value);
+                    st.trace.push(t);
+                }
+                if point == "client.after_register" {
+                    if let Party::Caller(c) = party {
+                        st.ids.insert(c, value);
+                    }
+                    return;
+                }
+                if point == "failall.enter" {
+                    st.enters += 1;
+                    if st.enters > 2 {
+                        // a reader that keeps re-entering the failure path (already reported): do not let it burn a core
+                        drop(st);
+                        std::thread::sleep(Duration::from_millis(20));
+                        return;
+                    }
+                }
+                let parks = match point {
+                    "reader.exit" => st.gate || st.hold_exit,
+                    _ if !st.gate => false,
+                    "client.before_write" => true,
+                    "timeout.before_remove" | "guard.before_remove" => matches!(party, Party::Caller(c) if st.timeout_callers.contains(&c)),
+                    "reader.after_match" | "reader.unmatched" | "reader.notify" | "reader.after_dispatch" => true,
+                    "failall.enter" | "failall.after_shutdown" | "failall.after_take_notify" | "failall.after_drain" | "failall.after_send" | "failall.done" => true,
+                    _ => false,
+                };
+                if !parks {
+                    return;
+                }
+            }
+            // Park. `block_in_place` hands this worker's run queue (and LIFO slot) to another thread, so
+            // tasks woken by the parked task keep running; outside a runtime it just runs the closure.
+            tokio::task::block_in_place(|| {
+                let mut st = self.st.lock().unwrap();
+                // a park belongs to the case (epoch) it started in and has its own ticket, so that a
+                // thread of an earlier case that wakes up late can neither take a release meant for the
+                // current case nor erase the current party's entry
+                let epoch = st.epoch;
+                st.next_ticket += 1;
+                let ticket = st.next_ticket;
+                st.parked.insert(party, (point, value, ticket));
+                self.cv.notify_all();
+                loop {
+                    if st.release.remove(&ticket) {
+                        break;
+                    }
+                    let held = st.epoch == epoch && if point == "reader.exit" { st.gate || st.hold_exit } else { st.gate };
+                    if !held {
+                        break;
+                    }
+                    st = self.cv.wait(st).unwrap();
+                }
+                if st.parked.get(&party).map(|x| x.2) == Some(ticket) {
+                    st.parked.remove(&party);
+                }
+                self.cv.notify_all();
+            });
+        }
+        pub fn reset(&self, timeout_callers: HashSet<usize>) {
+            let mut st = self.st.lock().unwrap();
+            st.epoch += 1;
+            st.gate = true;
+            st.hold_exit = false;
+            st.parked.clear();
+            st.release.clear();
+            st.ids.clear();
+            st.enters = 0;
+            st.trace.clear();
+            st.timeout_callers = timeout_callers;
+        }
+        pub fn trace(&self) -> String {
+            self.st.lock().unwrap().trace.join(" ")
+        }
+        pub fn fired(&self) -> u64 {
+            self.st.lock().unwrap().fired
+        }
+        pub fn parked(&self, p: Party) -> Option<(&'static str, u64)> {
+            self.st.lock().unwrap().parked.get(&p).map(|x| (x.0, x.1))
+        }
+        pub fn id_of(&self, c: usize) -> Option<u64> {
+            self.st.lock().unwrap().ids.get(&c).copied()
+        }
+        pub fn enters(&self) -> u64 {
+            self.st.lock().unwrap().enters
+        }
+        /// Let `p` leave the gate it is parked at; returns once it has left.
+        pub fn release(&self, p: Party) -> bool {
+            let mut st = self.st.lock().unwrap();
+            let Some(ticket) = st.parked.get(&p).map(|x| x.2) else { return false };
+            st.release.insert(ticket);
+            self.cv.notify_all();
+            let deadline = Instant::now() + Duration::from_secs(5);
+            while st.parked.get(&p).map(|x| x.2) == Some(ticket) {
+                let (g, _) = self.cv.wait_timeout(st, Duration::from_millis(50)).unwrap();
+                st = g;
+                if Instant::now() > deadline {
+                    return false;
+                }
+            }
+            true
+        }
+        /// Everything runs freely from now on, except that the reader is held at `reader.exit`.
+        pub fn free_run(&self, hold_exit: bool) {
+            let mut st = self.st.lock().unwrap();
+            st.gate = false;
+            st.hold_exit = hold_exit;
+            st.release.clear();
+            self.cv.notify_all();
+        }
+    }
+
+    pub struct Run<'a> {
+        pub h: &'a H,
+        pub s: Session,
+        pub n: usize,
+        pub done: Vec<Option<String>>,
+        pub req_seen: Vec<bool>,
+        pub ftags: Vec<(Option<usize>, bool)>, // per F: (caller whose id it carries, notify)
+        pub gates: Vec<char>,
+        pub reader_finished: bool,
+        pub failed: bool,
+        pub problems: Vec<(String, String)>,
+    }
+
+    impl<'a> Run<'a> {
+        /// Move everything that arrived into the stashes.
+        fn pump(&mut self) {
+            while let Ok(e) = self.s.ev.try_recv() {
+                match e {
+                    Event::Res(c, r) => {
+                        if c < self.n && self.done[c].is_none() {
+                            self.done[c] = Some(match &r {
+                                Ok(v) => tag_of(v).map(|t| t.to_string()).unwrap_or("?".into()),
+                                Err(e) if cls(e) == "Timeout" => "T".into(),
+                                Err(_) => "E".into(),
+                            });
+                        }
+                    }
+                    Event::Req(f) => {
+                        if let Some(c) = caller_of(&f) {
+                            if c < self.n {
+                                self.req_seen[c] = true;
+                            }
+                        }
+                    }
+                    e => self.s.srv_stash.push_back(e),
+                }
+            }
+        }
+        /// Poll until `cond` holds (true) or the watchdog expires (false).
+        fn until(&mut self, mut cond: impl FnMut(&mut Self) -> bool) -> bool {
+            let deadline = Instant::now() + call_watchdog().min(Duration::from_secs(8));
+            let mut spins = 0u32;
+            loop {
+                self.pump();
+                if cond(self) {
+                    return true;
+                }
+                if Instant::now() > deadline {
+                    return false;
+                }
+                spins += 1;
+                if spins < 200 {
+                    std::thread::yield_now();
+                } else {
+                    std::thread::sleep(Duration::from_micros(200));
+                }
+            }
+        }
+        fn srv_done(&mut self) -> bool {
+            self.until(|r| {
+                if let Some(p) = r.s.srv_stash.iter().position(|e| matches!(e, Event::Done | Event::SrvErr(_))) {
+                    r.s.srv_stash.remove(p);
+                    true
+                } else {
+                    false
+                }
+            })
+        }
+        fn reader_gate(&self) -> Option<&'static str> {
+            ctl().parked(Party::Reader).map(|x| x.0)
+        }
+        /// The reader must be reading: release it from `reader.after_dispatch` if it is parked there.
+        fn reader_to_read(&mut self) {
+            if self.reader_gate() == Some("reader.after_dispatch") {
+                ctl().release(Party::Reader);
+            }
+        }
+        pub fn act(&mut self, a: &str) -> Result<(), String> {
+            let kind = &a[..1];
+            let rest = &a[1..];
+            match kind {
+                "S" => {
+                    let tmo = rest.ends_with('t');
+                    let c: usize = rest.trim_end_matches('t').parse().map_err(|_| "bad S")?;
+                    self.s.call(self.h, c, req_body(c), if tmo { Some(Duration::from_millis(30)) } else { None });
+                    let ok = self.until(|r| r.done[c].is_some() || ctl().parked(Party::Caller(c)).map(|x| x.0) == Some("client.before_write"));
+                    if !ok { return Err(format!("S{c}: neither parked before the write nor returned")); }
+                }
+                "W" => {
+                    let c: usize = rest.parse().map_err(|_| "bad W")?;
+                    if self.done[c].is_some() { return Ok(()); }
+                    if !ctl().release(Party::Caller(c)) { return Err(format!("W{c}: caller not parked before the write")); }
+                    let ok = self.until(|r| r.done[c].is_some() || r.req_seen[c]);
+                    if !ok { return Err(format!("W{c}: request neither reached the server nor failed")); }
+                }
+                "F" => {
+                    self.reader_to_read();
+                    let k: usize = rest[1..].parse().map_err(|_| "bad F")?;
+                    let (id, notify, who) = match &rest[..1] {
+                        "r" => (ctl().id_of(k).ok_or(format!("F: id of caller {k} unknown"))?, false, Some(k)),
+                        "n" => (ctl().id_of(k).ok_or(format!("F: id of caller {k} unknown"))?, true, Some(k)),
+                        _ => (1_000_000_000 + k as u64, false, None),
+                    };
+                    let tag = self.ftags.len();
+                    self.ftags.push((who, notify));
+                    self.s.send(Cmd::Send(vec![response(id, notify, tag as i64, who.map(|x| x as i64).unwrap_or(-1))]));
+                    if !self.srv_done() { return Err("F: server could not send".into()); }
+                    let ok = self.until(|r| matches!(r.reader_gate(), Some("reader.after_match" | "reader.unmatched" | "reader.notify")));
+                    if !ok { return Err(format!("F{rest}: the reader did not process the frame")); }
+                    let g = match self.reader_gate() { Some("reader.after_match") => 'm', Some("reader.notify") => 'n', _ => 'u' };
+                    self.gates.push(g);
+                    // residue: a response for a call that has already returned must not find an entry
+                    if let Some(c) = who {
+                        self.pump();
+                        if g == 'm' && self.done[c].is_some() {
+                            self.problems.push(("residue_late_response_matched".into(), format!("frame #{tag} carries the id of call {c}, which had already returned ({}), and still found a pending entry", self.done[c].clone().unwrap())));
+                        }
+                        if g == 'm' && notify && self.s.kind == 2 {
+                            self.problems.push(("notify_matched".into(), format!("notify frame #{tag} was matched against the pending map")));
+                        }
+                    }
+                }
+                "D" => {
+                    if !matches!(self.reader_gate(), Some("reader.after_match" | "reader.unmatched" | "reader.notify")) { return Err("D: reader holds nothing".into()); }
+                    ctl().release(Party::Reader);
+                    let ok = self.until(|r| r.reader_gate() == Some("reader.after_dispatch"));
+                    if !ok { return Err("D: reader did not finish the dispatch".into()); }
+                }
+                "T" => {
+                    let c: usize = rest.parse().map_err(|_| "bad T")?;
+                    let ok = self.until(|r| matches!(ctl().parked(Party::Caller(c)).map(|x| x.0), Some("timeout.before_remove" | "guard.before_remove")));
+                    if !ok { return Err(format!("T{c}: the timeout did not fire")); }
+                }
+                "C" => {
+                    let c: usize = rest.parse().map_err(|_| "bad C")?;
+                    if !ctl().release(Party::Caller(c)) { return Err(format!("C{c}: caller not parked in its timeout path")); }
+                    let ok = self.until(|r| r.done[c].is_some());
+                    if !ok { return Err(format!("C{c}: timed-out call did not return")); }
+                }
+                "X" => {
+                    self.reader_to_read();
+                    let bytes = malformed("badspec", 1);
+                    if self.s.kind == 2 { self.s.send(Cmd::Send(vec![bytes])); } else { self.s.send(Cmd::SendRaw(bytes)); }
+                    if !self.srv_done() { return Err("X: server could not send".into()); }
+                    self.failed = true;
+                    let ok = self.until(|r| r.reader_gate() == Some("failall.enter"));
+                    if !ok { return Err("X: the reader did not enter fail_all_pending".into()); }
+                }
+                "A" => {
+                    if self.reader_finished || !self.failed { return Ok(()); }
+                    let before = ctl().enters();
+                    let from = self.reader_gate();
+                    if !ctl().release(Party::Reader) { return Err("A: reader not parked in the failure path".into()); }
+                    let ok = self.until(|r| r.reader_gate().map(|g| g.starts_with("failall.") || g == "reader.exit").unwrap_or(false));
+                    if !ok { return Err(format!("A: the reader did not reach its next step after {:?}", from)); }
+                    if self.reader_gate() == Some("reader.exit") {
+                        self.reader_finished = true;
+                    } else if ctl().enters() > before {
+                        self.problems.push(("reader_continues_after_failure".into(), "the response loop went on reading after fail_all_pending and entered it again".into()));
+                        self.reader_finished = true;
+                    }
+                }
+                _ => return Err(format!("unknown action {a}")),
+            }
+            Ok(())
+        }
+    }
+
+    /// Does this tree have the probe points? (one call against an echoing server)
+    pub fn probes_present(h: &H) -> bool {
+        ctl().reset(HashSet::new());
+        ctl().free_run(false);
+        let before = ctl().fired();
+        if let Ok(mut s) = h.open(0) {
+            s.send(Cmd::Echo(1));
+            s.call(h, 0, req_body(0), Some(Duration::from_secs(5)));
+            let _ = s.res(Duration::from_secs(6));
+            s.send(Cmd::Close);
+        }
+        ctl().fired() > before
+    }
+
+    pub fn run_sched_case(h: &H, out: &mut Out, idx: &str, kind: usize, n: usize, actions: &[String]) {
+        let kname = KINDS[kind];
+        let op = format!("sched {} {} {} {}", idx, kind, n, actions.join(","));
+        out.begin(&op);
+        let ops = [op.clone()];
+        let tmo: HashSet<usize> = actions.iter().filter(|a| a.starts_with('S') && a.ends_with('t')).filter_map(|a| a[1..a.len() - 1].parse().ok()).collect();
+        ctl().reset(tmo);
+        let s = match h.open(kind) {
+            Ok(s) => s,
+            Err(e) => {
+                eprintln!("setup failed: {e}");
+                ctl().free_run(false);
+                return;
+            }
+        };
+        let _sub = match &s.cl {
+            Cl::W(w) => w.subscribe_notifies().ok(),
+            _ => None,
+        };
+        let mut run = Run { h, s, n, done: vec![None; n], req_seen: vec![false; n], ftags: vec![], gates: vec![], reader_finished: false, failed: false, problems: vec![] };
+        run.s.send(Cmd::AutoRead);
+        let _ = run.srv_done();
+        let mut stuck = None;
+        for (k, a) in actions.iter().enumerate() {
+            if let Err(e) = run.act(a) {
+                stuck = Some(format!("action #{k} {a}: {e}"));
+                break;
+            }
+            out.count(&format!("sched.action.{}", &a[..1]));
+        }
+        // everything else runs freely now; every started call must return
+        ctl().free_run(true);
+        let started: Vec<usize> = actions.iter().filter(|a| a.starts_with('S')).filter_map(|a| a[1..].trim_end_matches('t').parse().ok()).collect();
+        let all = run.until(|r| started.iter().all(|c| r.done[*c].is_some()));
+        if let Some(e) = &stuck {
+            out.oracle_fail(&format!("sched.{}.stuck", kname), &format!("forced schedule could not proceed: {}; probe trace: {}", e, ctl().trace()), &ops);
+            saw_hang();
+        }
+        if !all {
+            let hung: Vec<usize> = started.iter().copied().filter(|c| run.done[*c].is_none()).collect();
+            out.oracle_fail(&format!("sched.{}.hang", kname), &format!("calls {:?} never returned under this schedule{}; probe trace: {}", hung, if run.failed { " although the connection had failed" } else { "" }, ctl().trace()), &ops);
+            saw_hang();
+        }
+        for (sig, detail) in &run.problems {
+            out.oracle_fail(&format!("sched.{}.{}", kname, sig), detail, &ops);
+        }
+        // own response / errors after a failure
+        for c in started.iter().copied() {
+            if let Some(o) = &run.done[c] {
+                if let Ok(t) = o.parse::<usize>() {
+                    if run.ftags.get(t).map(|f| f.0) != Some(Some(c)) {
+                        out.oracle_fail(&format!("sched.{}.wrong_response", kname), &format!("call {} returned frame #{} which does not carry its id", c, t), &ops);
+                    } else if kind == 2 && run.ftags[t].1 {
+                        out.oracle_fail(&format!("sched.{}.notify_delivered_to_caller", kname), &format!("call {} returned the notify frame #{}", c, t), &ops);
+                    }
+                }
+            }
+        }
+        let got: Vec<String> = (0..n).map(|c| run.done[c].clone().unwrap_or_else(|| if started.contains(&c) { "HANG".into() } else { "-".into() })).collect();
+        let gates: String = if run.gates.is_empty() { "-".into() } else { run.gates.iter().map(|g| g.to_string()).collect::<Vec<_>>().join(",") };
+        if stuck.is_none() {
+            out.case(&op, &format!("{} got {} gates {}", idx, got.join(","), gates), true);
+        } else {
+            out.count("sched.stuck");
+        }
+        out.count(&format!("sched.{}", kname));
+        // teardown: the reader must have left its loop before the next case installs its gates
+        run.s.send(Cmd::Close);
+        let Run { s, .. } = run;
+        drop(s);
+        let t0 = Instant::now();
+        while t0.elapsed() < Duration::from_secs(3) {
+            if ctl().parked(Party::Reader).map(|x| x.0) == Some("reader.exit") {
+                break;
+            }
+            std::thread::sleep(Duration::from_micros(300));
+        }
+        ctl().free_run(false);
+    }
+
+    // ---------------- generation -----------------------------------------------------------------
+    /// Abstract tracker that keeps generated schedules executable (it does not predict outcomes).
+    #[derive(Clone)]
+    struct Trk {
+        started: Vec<bool>,
+        written: Vec<bool>,
+        timed: Vec<bool>,     // T done
+        cleaned: Vec<bool>,   // C done
+        tmo: Vec<bool>,
+        pending: Vec<bool>,   // has an entry the reader could match
+        got: Vec<bool>,       // something was delivered
+        holding: Option<Option<usize>>, // reader parked after a frame (Some(c) = matched c)
+        failed: bool,
+    }
+    impl Trk {
+        fn new(n: usize) -> Trk {
+            Trk { started: vec![false; n], written: vec![false; n], timed: vec![false; n], cleaned: vec![false; n], tmo: vec![false; n], pending: vec![false; n], got: vec![false; n], holding: None, failed: false }
+        }
+        fn can(&self, a: &str, kind: usize) -> bool {
+            let num = |s: &str| s.trim_end_matches('t').parse::<usize>().unwrap();
+            match &a[..1] {
+                "S" => !self.started[num(&a[1..])],
+                "W" => { let c = num(&a[1..]); self.started[c] && !self.written[c] }
+                "T" => { let c = num(&a[1..]); self.tmo[c] && self.written[c] && !self.timed[c] && !self.got[c] && !self.failed }
+                "C" => { let c = num(&a[1..]); self.timed[c] && !self.cleaned[c] }
+                "F" => {
+                    if self.failed || self.holding.is_some() { return false; }
+                    match &a[1..2] { "r" | "n" => self.started[num(&a[2..])], _ => true }
+                }
+                "D" => match self.holding {
+                    // a timeout caller's matched response is not delivered before its timer fired
+                    Some(Some(c)) => !(self.tmo[c] && !self.timed[c]),
+                    Some(None) => true,
+                    None => false,
+                },
+                "X" => !self.failed && self.holding.is_none(),
+                "A" => self.failed,
+                _ => { let _ = kind; false }
+            }
+        }
+        fn apply(&mut self, a: &str, kind: usize) {
+            let num = |s: &str| s.trim_end_matches('t').parse::<usize>().unwrap();
+            match &a[..1] {
+                "S" => { let c = num(&a[1..]); self.started[c] = true; self.tmo[c] = a.ends_with('t'); self.pending[c] = true; }
+                "W" => { let c = num(&a[1..]); self.written[c] = true; }
+                "T" => { let c = num(&a[1..]); self.timed[c] = true; }
+                "C" => { let c = num(&a[1..]); self.cleaned[c] = true; self.pending[c] = false; }
+                "F" => {
+                    let m = match &a[1..2] {
+                        "r" => { let c = num(&a[2..]); if self.pending[c] { Some(c) } else { None } }
+                        "n" => { let c = num(&a[2..]); if kind != 2 && self.pending[c] { Some(c) } else { None } }
+                        _ => None,
+                    };
+                    if let Some(c) = m { self.pending[c] = false; }
+                    self.holding = Some(m);
+                }
+                "D" => { if let Some(Some(c)) = self.holding { if !self.timed[c] { self.got[c] = true; } } self.holding = None; }
+                "X" => self.failed = true,
+                _ => {}
+            }
+        }
+    }
+
+    /// Random merge of the threads' action lists that the tracker accepts, followed by a completion
+    /// phase so that every call gets an answer (or the failure path runs to its end).
+    fn merge(r: &mut Rng, kind: usize, n: usize, threads: &[Vec<String>]) -> Vec<String> {
+        let mut pos = vec![0usize; threads.len()];
+        let mut t = Trk::new(n);
+        let mut out = Vec::new();
+        loop {
+            let enabled: Vec<usize> = (0..threads.len()).filter(|i| pos[*i] < threads[*i].len() && t.can(&threads[*i][pos[*i]], kind)).collect();
+            if enabled.is_empty() {
+                break;
+            }
+            let i = *r.pick(&enabled);
+            let a = threads[i][pos[i]].clone();
+            t.apply(&a, kind);
+            out.push(a);
+            pos[i] += 1;
+        }
+        complete(&mut t, kind, n, &mut out);
+        out
+    }
+    fn complete(t: &mut Trk, kind: usize, n: usize, out: &mut Vec<String>) {
+        let mut push = |t: &mut Trk, a: String, out: &mut Vec<String>| { if t.can(&a, kind) { t.apply(&a, kind); out.push(a); } };
+        if t.holding.is_some() {
+            // a held response of a timeout caller waits for the timer
+            if let Some(Some(c)) = t.holding { if t.tmo[c] && !t.timed[c] { if !t.written[c] { push(t, format!("W{c}"), out); } push(t, format!("T{c}"), out); } }
+            push(t, "D".into(), out);
+        }
+        for c in 0..n {
+            if t.started[c] && !t.written[c] { push(t, format!("W{c}"), out); }
+        }
+        for c in 0..n {
+            if t.tmo[c] && t.written[c] && !t.timed[c] && !t.got[c] && !t.failed { push(t, format!("T{c}"), out); }
+            if t.timed[c] && !t.cleaned[c] { push(t, format!("C{c}"), out); }
+        }
+        if t.failed {
+            for _ in 0..10 { out.push("A".into()); }
+        } else {
+            for c in 0..n {
+                if t.started[c] && !t.got[c] && !t.timed[c] {
+                    push(t, format!("Fr{c}"), out);
+                    push(t, "D".into(), out);
+                }
+            }
+        }
+    }
+
+    pub fn gen(args: &Args, r: &mut Rng, prop: &str) -> Vec<(usize, usize, Vec<String>)> {
+        let mut v = Vec::new();
+        let th = args.thorough();
+        for kind in 0..3 {
+            let sv = |xs: &[&str]| xs.iter().map(|x| x.to_string()).collect::<Vec<String>>();
+            if prop == "c04" {
+                // responses in every order against every interleaving of two / three callers
+                let nrand = if th { 1500 } else { 120 };
+                for i in 0..nrand {
+                    let n = if i % 3 == 2 { 3 } else { 2 };
+                    let mut frames: Vec<String> = (0..n).map(|c| format!("r{c}")).collect();
+                    r.shuffle(&mut frames);
+                    for _ in 0..r.below(3) {
+                        let pos = r.below(frames.len() as u64 + 1) as usize;
+                        let t = match r.below(3) { 0 => format!("u{}", r.below(9)), 1 => format!("r{}", r.below(n as u64)), _ => format!("n{}", r.below(n as u64)) };
+                        frames.insert(pos, t);
+                    }
+                    let mut threads: Vec<Vec<String>> = (0..n).map(|c| vec![format!("S{c}"), format!("W{c}")]).collect();
+                    threads.push(frames.iter().flat_map(|f| vec![format!("F{f}"), "D".to_string()]).collect());
+                    v.push((kind, n, merge(r, kind, n, &threads)));
+                }
+                // narrow windows, fixed: response arriving between register and write; duplicate while the first is held
+                v.push((kind, 2, sv(&["S0", "S1", "Fr0", "D", "W0", "W1", "Fr1", "D"])));
+                v.push((kind, 2, sv(&["S0", "W0", "Fr0", "S1", "W1", "D", "Fr0", "D", "Fr1", "D"])));
+                v.push((kind, 2, sv(&["S0", "W0", "S1", "W1", "Fn0", "D", "Fr1", "D", "Fr0", "D"])));
+            } else {
+                // timeouts: the timer fires before / between match and deliver / after the late response
+                for tail in [sv(&["S0t", "W0", "T0", "C0", "Fr0", "D"]), sv(&["S0t", "W0", "Fr0", "T0", "C0", "D"]), sv(&["S0t", "W0", "Fr0", "T0", "D", "C0"]), sv(&["S0t", "W0", "T0", "Fr0", "D", "C0"]), sv(&["S0t", "W0", "T0", "Fr0", "C0", "D"])] {
+                    let mut a = tail.clone();
+                    a.extend(sv(&["S1", "W1", "Fr1", "D", "Fr0", "D"]));
+                    v.push((kind, 2, a));
+                }
+                let nt = if th { 1000 } else { 60 };
+                for _ in 0..nt {
+                    let threads = vec![sv(&["S0t", "W0", "T0", "C0"]), sv(&["S1", "W1"]),
+                        if r.chance(1, 2) { sv(&["Fr0", "D", "Fr1", "D", "Fr0", "D"]) } else { sv(&["Fr1", "D", "Fr0", "D", "Fr0", "D"]) }];
+                    v.push((kind, 2, merge(r, kind, 2, &threads)));
+                }
+                // failure path: a late caller after k statements of fail_all_pending, k = 0..7
+                for k in 0..8 {
+                    let mut a = sv(&["S0", "W0", "X"]);
+                    for _ in 0..k { a.push("A".into()); }
+                    a.extend(sv(&["S1", "W1"]));
+                    for _ in 0..10 { a.push("A".into()); }
+                    v.push((kind, 2, a));
+                    // the late caller registers early and writes late
+                    let mut b = sv(&["S0", "W0", "S1", "X"]);
+                    for _ in 0..k { b.push("A".into()); }
+                    b.push("W1".into());
+                    for _ in 0..10 { b.push("A".into()); }
+                    v.push((kind, 2, b));
+                }
+                let nf = if th { 1000 } else { 60 };
+                for i in 0..nf {
+                    let n = if i % 2 == 0 { 2 } else { 3 };
+                    let mut threads: Vec<Vec<String>> = (0..n).map(|c| vec![format!("S{c}"), format!("W{c}")]).collect();
+                    let mut rd = if r.chance(1, 2) { sv(&["Fr0", "D", "X"]) } else { sv(&["X"]) };
+                    for _ in 0..r.range(0, 7) { rd.push("A".into()); }
+                    threads.push(rd);
+                    v.push((kind, n, merge(r, kind, n, &threads)));
+                }
+            }
+        }
+        v
+    }
+}
+
 fn main() {
     let args = Args::parse();
     quiet_panics();
     let fam = args.extra.first().cloned().unwrap_or_else(|| "mux".into());
     let mut out = Out::new(&args.out);
-    let rt = tokio::runtime::Builder::new_multi_thread().worker_threads(4).enable_all().build().unwrap();
-    let h = H { rt };
+    let rt = tokio::runtime::Builder::new_multi_thread().worker_threads(8).enable_all().build().unwrap();
+    let srv_rt = tokio::runtime::Builder::new_multi_thread().worker_threads(2).enable_all().build().unwrap();
+    let h = H { rt, srv_rt };
     let mut rng = Rng::new(args.seed);
     if let Some(ops) = args.replay_ops() {
         for (k, l) in ops.iter().enumerate() {
@@ -1405,7 +2204,7 @@ fn main() {
                 }
                 Some("seq") if w.len() >= 5 => run_seq_case(&h, &mut out, &idx, w[2].parse().unwrap(), w[3].parse().unwrap(), w[4].parse().unwrap()),
                 Some("batch") if w.len() >= 6 => {
-                    run_batch_case(&h, &mut out, &idx, &BatchCase { kind: w[2].parse().unwrap(), n: w[3].parse().unwrap(), w: w[4].parse().unwrap(), order: w[5].split(',').filter_map(|x| x.parse().ok()).collect() });
+                    run_batch_case(&h, &mut out, &idx, &BatchCase { kind: w[2].parse().unwrap(), n: w[3].parse().unwrap(), w: w[4].parse().unwrap(), order: if w[5] == "rev" { vec![usize::MAX] } else { w[5].split(',').filter_map(|x| x.parse().ok()).collect() } });
                 }
                 Some("dead") if w.len() >= 9 => {
                     run_dead_case(&h, &mut out, &idx, &DeadCase { kind: w[2].parse().unwrap(), n: w[3].parse().unwrap(), tmo: w[4] == "1", answered: w[5].parse().unwrap(), fault: w[6].into(), when: w[7].into(), cut: w[8].parse().unwrap() });
@@ -1415,9 +2214,43 @@ fn main() {
                     run_tmo_case(&h, &mut out, &idx, w[2].parse().unwrap(), w[3], jitter);
                 }
                 Some("cancel") if w.len() >= 4 => run_cancel_case(&h, &mut out, &idx, w[2].parse().unwrap(), w[3]),
+                #[cfg(feature = "hooks")]
+                Some("sched") if w.len() >= 5 => {
+                    let actions: Vec<String> = w[4].split(',').map(|x| x.to_string()).collect();
+                    if sched::probes_present(&h) {
+                        sched::run_sched_case(&h, &mut out, &idx, w[2].parse().unwrap(), w[3].parse().unwrap(), &actions);
+                    }
+                }
+                Some("abandon") if w.len() >= 4 => run_abandon_case(&h, &mut out, &idx, w[2].parse().unwrap(), w[3].parse().unwrap()),
+                Some("wtmo") if w.len() >= 5 => run_wtmo_case(&h, &mut out, &idx, w[3].parse().unwrap(), w[4].parse().unwrap()),
                 Some("stall") if w.len() >= 4 => run_stall_case(&h, &mut out, &idx, w[2].parse().unwrap(), w[3]),
                 _ => {}
             }
+        }
+    } else if fam == "sched" {
+        let prop = args.extra.get(1).cloned().unwrap_or_else(|| "c04".into());
+        out.rule = "probe-forced schedules (verif-hooks): an action list over S<c> start+register, W<c> write, F<frame> match, D deliver, T<c> timer fired, C<c> cleanup, X malformed frame, A next statement of fail_all_pending is forced on the real client by parking callers and the reader at the probe points; random valid merges of the callers' and the reader's programs for 2-3 callers plus fixed schedules for the narrow windows (response between register and write, timer between match and deliver, late response after timeout, late caller after each statement of fail_all_pending). Every case is non-trivial".into();
+        #[cfg(feature = "hooks")]
+        {
+            if sched::probes_present(&h) {
+                out.extra.insert("probes".into(), json!(true));
+                let cases = sched::gen(&args, &mut rng, &prop);
+                for (i, (kind, n, actions)) in cases.iter().enumerate() {
+                    sched::run_sched_case(&h, &mut out, &format!("s{i}"), *kind, *n, actions);
+                    if out.oracle_failures >= 25 {
+                        break; // enough failing inputs; the rest would only repeat them slowly
+                    }
+                }
+            } else {
+                out.extra.insert("probes".into(), json!(false));
+                out.extra.insert("skipped".into(), json!("the tree under test has no probe points (hooks/mux.diff not applied)"));
+            }
+        }
+        #[cfg(not(feature = "hooks"))]
+        {
+            let _ = prop;
+            out.extra.insert("probes".into(), json!(false));
+            out.extra.insert("skipped".into(), json!("harness built without the hooks feature"));
         }
     } else if fam == "mux" {
         out.rule = "N concurrent calls on clones of one client (blocking/async/WebSocket) against a scripted raw server that first collects all N requests, then emits a script: every permutation of the N responses for N<=4 (thorough: <=6), each adversarial frame kind (unknown id, unknown-id notify, duplicate, notify re-using an in-flight id) at every position for N=2, random scripts with several such frames for N<=64; batch_json with a windowed out-of-order server; T workers x K back-to-back calls answered the instant they are read. Distinct by op line; non-trivial = at least two concurrent callers or an adversarial frame (batch: the server finished out of request order)".into();
@@ -1436,7 +2269,7 @@ fn main() {
             }
         }
     } else {
-        out.rule = "per client: each fault kind (FIN, RST via SO_LINGER 0, close with unread requests, each malformed header / WebSocket message kind, response cut at a header/body byte-offset class, WebSocket close) with 0..16 calls in flight, before or after the requests were read, optionally after answering some calls, with and without per-call timeouts; then one more call and the notify subscriber; timeouts racing the response (late / early / timed race); cancellation before write (writer stalled by a 12 MiB request) and during wait; a malformed frame delivered while another caller is stalled in write (peer not reading). Non-trivial = at least one call in flight / every timeout and cancel scenario".into();
+        out.rule = "per client: each fault kind (FIN, RST via SO_LINGER 0, close with unread requests, each malformed header / WebSocket message kind, response cut at a header/body byte-offset class, WebSocket close) with 0..16 calls in flight, before or after the requests were read, optionally after answering some calls, with and without per-call timeouts; then one more call and the notify subscriber; timeouts racing the response (late / early / timed race); cancellation before write (writer stalled by a 12 MiB request) and during wait; a malformed frame delivered while another caller is stalled in write (peer not reading); an async call aborted while its large write is parked, then another call; a blocking write timing out mid-frame with calls in flight against a silent peer. Non-trivial = at least one call in flight / every timeout and cancel scenario".into();
         let cases = gen_dead(&args, &mut rng);
         for (i, c) in cases.iter().enumerate() {
             run_dead_case(&h, &mut out, &format!("d{i}"), c);
@@ -1462,6 +2295,12 @@ fn main() {
             }
             run_cancel_case(&h, &mut out, &format!("c{c}"), kind, "prewrite");
             c += 1;
+        }
+        // a call abandoned while its large write is parked; a write timing out mid-frame with calls in flight
+        let reps = if args.thorough() { 6 } else { 2 };
+        for j in 0..reps {
+            run_abandon_case(&h, &mut out, &format!("a{j}"), 1, if j % 2 == 0 { 12 } else { 20 });
+            run_wtmo_case(&h, &mut out, &format!("w{j}"), 3 + j % 2, 12);
         }
         // a writer stalled by a peer that stopped reading must not keep the failure from the other calls
         let mut k = 0;
